@@ -48,27 +48,41 @@ RULE["C16"] = "3 of 4 cases: random models (40% facility-rich, 20% with a BaseSu
 RULE["C17"] = "random models and perturbed fixtures with random due times (incl. -1 and ties), both settings of considering_due_time_of_tail_tasks and reverse_log_information; per model: forward reference run, identity snapshot of every input/output list of tasks and workplaces, one un-faulted backward run (structure, helper tasks, log alignment, FS order in the time-reversed logs, forward re-run compared exactly); 2 of 3 cases stop there (dependency-order workload with own workers and many FS links mixed with SS/FF/SF); 1 of 3 cases continue with one backward run per injection point in which the step observer raises at exactly that (step, phase) of the inner run - quick: 8 sampled points + first + last, thorough: EVERY (step, phase) notified by the reference run; after each aborted run structure and forward result are re-checked; non-trivial = the injected exception was really raised and propagated out of backward_simulate"
 RULE["C19"] = "first cases: EXHAUSTIVE enumeration of all state sequences of length 0..6 (quick) / 0..8 (thorough) for task and component logs (4 states) and worker and facility logs (3 states) x margins {0, 0.5, 1, 2}, each compared with a reference run-length encoder; then random long sequences (<= 60, long runs and frequent changes) incl. the plotly chart rows (index k -> init_datetime + k * unit_timedelta, with view_ready / view_absence), random extract_*_list queries on workflows, products, teams and workplaces (time lists with duplicates, empty, beyond the end), set_last_datetime with several units, and the logs of real simulations; non-trivial = sequence length >= 3 (exhaustive chunks) / every random, query and real-log case"
 RULE["C20"] = "end to end with the real code: a generated feasible sub-project (durations 1-30, half with an absence list inside the run, some with steps beyond the end) is simulated, saved, a BaseSubProjectTask is configured from the file (with / without absence steps), its unit is related to the parent's (7 unit lengths, integer and non-integer ratios), the task is placed at a random position (head, middle, tail; FS/SS/FF/SF links) of a generated parent workflow which is simulated under the C01/C06 monitors; checked: work amount = duration, unit, number of WORKING steps = ceil(duration x sub unit / parent unit), consecutive working steps, no worker; every 5th case: configuring from an unsimulated or failed project must warn and leave every attribute of the task unchanged; non-trivial = unit ratio != 1 or absence steps inside the sub-project run (duration cases), every refusal case"
+_FORWARD_HISTORIES = ("; a share of the models (and half of the fixture models) goes through a short history instead of one plain run: "
+                      "simulate() twice, pause + resume (half of them with in-place parameter edits in between: skills of busy resources, "
+                      "rates, absence lists, rules, flags), a log-keeping second run, in-place model edits (incl. new dependencies) + re-run, "
+                      "absence edits of the logs, pause + JSON save/load + resume of the RESTORED project (monitor memory carried over by ID), "
+                      "backward_simulate() first and then the monitored forward run on the same objects; 6 % of the random models contain idle parts "
+                      "(team without workers, workplace without facilities, component without tasks)")
+for _p in ("C01", "C02", "C03", "C04", "C06", "C07", "C13", "C14"):
+    RULE[_p] = RULE[_p] + _FORWARD_HISTORIES
+RULE["C07"] += "; 12 % of the random C07 models contain a worker on loan (listed by one team, team_id naming another)"
+RULE["C09"] += "; every model is also simulated (forward, or backward in every 4th case), edited in place (1-4 parameter edits incl. skills of busy resources and new dependencies) and simulated again: the result must equal that of a fresh model built with the edited values"
+RULE["C10"] += "; in 35 % of the equivalence cases the run with absence is paused and resumed with the same list (a third of them through a JSON file) before remove_absence_time_list"
+RULE["C16"] += "; every stage case also reads the same file a second time after the first restored project was changed (must restore the same project again) and writes the same objects a second time after an absence insertion / log reversal / absence removal (the restored logs must equal the live ones)"
+RULE["C18"] += "; 30 % of the models contain idle parts (team without workers, workplace without facilities, component without tasks)"
+RULE["C20"] += "; every second case re-uses one result path per worker process (files rewritten in place, also with refused projects)"
 # minimal number of non-trivial cases / monitor evaluations for a conclusive run: (counter, quick, thorough)
 FLOORS = {
     "C01": [("C01.transitions", 2000, 50000), ("C01.nonFS_active", 100, 3000)],
-    "C02": [("C02.balances", 20000, 500000), ("C02.multi_worker_balances", 100, 3000)],
-    "C03": [("C03.resource_checks", 20000, 500000), ("C03.contention_steps", 200, 5000)],
+    "C02": [("C02.balances", 20000, 500000), ("C02.multi_worker_balances", 100, 3000), ("resume_with_parameter_edits", 25, 600), ("json_resumed_runs", 15, 400)],
+    "C03": [("C03.resource_checks", 20000, 500000), ("C03.contention_steps", 200, 5000), ("json_resumed_runs", 15, 400), ("simulate_after_backward_runs", 15, 400)],
     "C04": [("C04.new_worker_allocations", 1000, 30000), ("C04.alloc_with_ineligible_free_candidate", 100, 3000)],
     "C05": [("C05.feasible_runs", 600, 20000), ("C05.unservable_runs", 100, 3000), ("C05.status_checks", 1000, 30000)],
     "C11": [("C11.sort_calls", 20000, 500000), ("C11.sort_calls_with_distinct_keys", 5000, 100000), ("C11.contention_situations", 50, 1500), ("C11.contention_pairs", 50, 1500)],
     "C12": [("C12.updates", 10000, 300000), ("C12.updates_after_cpl_change", 500, 15000)],
     "C08": [("C08.length_checks", 100000, 3000000), ("C08.entry_checks", 50000, 1500000), ("C08.ops", 1500, 50000)],
-    "C09": [("C09.comparisons", 2000, 100000), ("C09.distinct_set_orders", 800, 40000), ("C09.fresh_process_runs", 60, 1500)],
-    "C10": [("C10.absence_task_checks", 5000, 150000), ("C10.equivalence_comparisons", 300, 10000), ("C10.individual_absence_checks", 50, 1500)],
+    "C09": [("C09.comparisons", 2000, 100000), ("C09.distinct_set_orders", 800, 40000), ("C09.fresh_process_runs", 60, 1500), ("C09.edit_and_resimulate_runs", 100, 3000)],
+    "C10": [("C10.absence_task_checks", 5000, 150000), ("C10.equivalence_comparisons", 300, 10000), ("C10.individual_absence_checks", 50, 1500), ("C10.equivalence_paused_and_resumed", 40, 1000)],
     "C18": [("C18.edits", 1500, 50000), ("C18.log_delta_checks", 50000, 1500000), ("C18.roundtrip_comparisons", 150, 5000)],
     "C15": [("C15.memory_resumes", 1000, 60000), ("C15.json_resumes", 200, 10000), ("C15.pauses_inside_run_with_working_task", 200, 20000)],
-    "C16": [("C16.roundtrip_comparisons", 300, 8000), ("C16.reference_checks", 10000, 300000), ("C16.resimulations", 50, 1500), ("C16.param_observed_relevant", 15, 400)],
+    "C16": [("C16.roundtrip_comparisons", 300, 8000), ("C16.reference_checks", 10000, 300000), ("C16.resimulations", 50, 1500), ("C16.param_observed_relevant", 15, 400), ("C16.second_reads_of_same_file", 200, 6000), ("C16.second_writes", 200, 6000)],
     "C17": [("C17.faults_raised_and_propagated", 1000, 100000), ("C17.structure_checks", 1000, 100000), ("C17.forward_comparisons", 1000, 100000), ("C17.fs_order_checks", 150, 3000)],
     "C19": [("C19.encoder_checks", 30000, 1000000), ("C19.query_checks", 3000, 80000), ("C19.row_checks", 1000, 30000), ("C19.date_checks", 1000, 30000), ("C19.exhaustive_chunks", 28, 36)],
-    "C20": [("C20.parent_runs", 200, 5000), ("C20.configurations", 300, 8000), ("C20.refusal_checks", 60, 1500)],
+    "C20": [("C20.parent_runs", 200, 5000), ("C20.configurations", 300, 8000), ("C20.refusal_checks", 60, 1500), ("C20.result_path_used_again", 100, 3000)],
     "C06": [("C06.pairs_examined", 1000, 30000), ("C06.none_checks", 1000, 30000)],
-    "C07": [("C07.resource_step_checks", 20000, 500000)],
-    "C13": [("C13.moves", 300, 10000), ("C13.site_checks", 300, 10000)],
+    "C07": [("C07.resource_step_checks", 20000, 500000), ("json_resumed_runs", 15, 400), ("resimulated_runs", 40, 1000)],
+    "C13": [("C13.moves", 300, 10000), ("C13.site_checks", 300, 10000), ("json_resumed_runs", 30, 800), ("simulate_after_backward_runs", 30, 800)],
     "C14": [("C14.relation_checks", 10000, 300000), ("C14.mixed_state_checks", 300, 10000)],
 }
 
